@@ -191,7 +191,7 @@ func run1701(in Sx) (out Sx) {
 	return out
 }
 
-func sxStrings(x Sx) []string {
+func sxStrings17(x Sx) []string {
 	var out []string
 	for _, s := range x.L {
 		out = append(out, s.Str())
@@ -226,7 +226,7 @@ func run1702(in Sx) (out Sx) {
 		}
 	}()
 	roots := SxView(in.L[0])
-	incl, excl, reset := sxStrings(in.L[1]), sxStrings(in.L[2]), in.L[3].IsTrue()
+	incl, excl, reset := sxStrings17(in.L[1]), sxStrings17(in.L[2]), in.L[3].IsTrue()
 	fs1, err := buildFiltered(roots, incl, excl, reset)
 	if err != nil {
 		return L(L(), L(N(9)))
